@@ -42,7 +42,7 @@ Record Inv (s : state) : Prop := {
   i_live : forall t, c_live (s_ctx s t) = inside (pcof s t);
   i_ctx : forall t, inside (pcof s t) = true ->
           c_made (s_ctx s t) = true /\ c_th (s_ctx s t) = Some t /\ c_phase (s_ctx s t) <> BEFORE_ISSUE;
-  i_tag0 : forall t, c_made (s_ctx s t) = true -> 0 < c_tag0 (s_ctx s t) <= s_mtag s;
+  i_tag0 : forall t, c_made (s_ctx s t) = true -> c_tag0 (s_ctx s t) <= s_mtag s;
   i_inj : forall t u, c_made (s_ctx s t) = true -> c_made (s_ctx s u) = true ->
           c_tag0 (s_ctx s t) = c_tag0 (s_ctx s u) -> t = u;
   i_map : forall g c, In (g, c) (s_map s) ->
@@ -476,19 +476,18 @@ Qed.
 
 (* the reader has collected another thread's response: COLLECTED, and back to the top of the loop *)
 Lemma Inv_collect_other s s' t otag targ c' :
-  Inv s -> adopted_by (pcof s t) = Some targ -> reader_otag (pcof s t) = Some otag -> targ <> t ->
+  Inv s -> reader_otag (pcof s t) = Some otag -> targ <> t ->
+  (forall k, ~ In (k, targ) (s_map s)) ->
   (forall x, pcof s' x = if Nat.eqb x t then PReaderLoop otag else pcof s x) ->
   (forall x, s_ctx s' x = if Nat.eqb x targ then c' else s_ctx s x) ->
   c_made c' = c_made (s_ctx s targ) -> c_tag0 c' = c_tag0 (s_ctx s targ) -> c_live c' = c_live (s_ctx s targ) ->
   c_th c' = c_th (s_ctx s targ) -> c_tag c' = c_tag (s_ctx s targ) -> c_phase c' = COLLECTED ->
-  s_map s' = s_map s -> s_rlock s' = s_rlock s ->
-  (forall a, In a (s_acc s') -> In a (s_acc s) \/ a_live a = true) ->
+  s_map s' = s_map s -> s_rlock s' = s_rlock s -> s_acc s' = s_acc s ->
   s_mtag s' = s_mtag s -> s_fix s' = s_fix s ->
   Inv s'.
 Proof.
-  intros I Ad Ro N u1 u2 Em E0 El Eh Et Ep u3 u4 u5 u6 u7.
+  intros I Ro N Tmap u1 u2 Em E0 El Eh Et Ep u3 u4 u5 u6 u7.
   pose proof I as [h1 h2 h3 h4 h5 h6 h7 h8 h9 h10].
-  destruct (h9 t targ Ad) as (Tin & Tmap & Ttag & Tf). destruct (Tf N) as [Tfol Tph].
   assert (Hins : forall x, inside (pcof s' x) = inside (pcof s x)).
   { intros x. rewrite u1. eqb_case x t; auto. unfold inside, is_reader. rewrite Ro.
     destruct (pcof s t); cbn in *; congruence. }
@@ -520,5 +519,649 @@ Proof.
   - intros x g. rewrite u1. eqb_case x t; [cbn; discriminate|].
     intros H. assert (R : is_reader (pcof s x) = true) by (eapply adopted_is_reader; eauto).
     exfalso. apply n. eapply reader_unique; eauto. unfold is_reader. rewrite Ro. reflexivity.
-  - intros a H. destruct (u5 a H); auto.
+  - intros a. rewrite u5. apply h10.
+Qed.
+
+(* ---- do_call: a new context ---------------------------------------------------------------------------- *)
+Lemma Inv_call_ok s s' t dl cn :
+  Inv s -> inside (pcof s t) = false ->
+  (forall x, pcof s' x = if Nat.eqb x t then PWaitLoop dl else pcof s x) ->
+  (forall x, s_ctx s' x = if Nat.eqb x t then cn else s_ctx s x) ->
+  c_made cn = true -> c_tag0 cn = s_mtag s + 1 -> c_tag cn = s_mtag s + 1 -> c_live cn = true ->
+  c_th cn = Some t -> c_phase cn = ISSUED ->
+  s_map s' = s_map s ++ [(s_mtag s + 1, t)] -> s_mtag s' = s_mtag s + 1 ->
+  s_rlock s' = s_rlock s -> s_acc s' = s_acc s -> s_fix s' = s_fix s ->
+  Inv s'.
+Proof.
+  intros I Out u1 u2 Cm C0 Ct Cl Ch Cp u3 u6 u4 u5 u7.
+  pose proof I as [h1 h2 h3 h4 h5 h6 h7 h8 h9 h10].
+  assert (Fo : is_follower (pcof s t) = false /\ reader_otag (pcof s t) = None /\ adopted_by (pcof s t) = None).
+  { unfold inside, is_reader in Out. destruct (pcof s t); cbn in *; try discriminate; auto. }
+  destruct Fo as (Fo1 & Fo2 & Fo3).
+  constructor.
+  - congruence.
+  - intros x. rewrite u1, u2. eqb_case x t; [rewrite Cl; reflexivity|apply h2].
+  - intros x. rewrite u1, u2. eqb_case x t; [|apply h3].
+    intros _. rewrite Cm, Ch, Cp. repeat split; congruence.
+  - intros x. rewrite u2, u6. eqb_case x t; [lia|]. intros H. specialize (h4 x H). lia.
+  - intros x y. rewrite !u2. eqb_case x t; eqb_case y t; auto.
+    + intros _ H E. specialize (h4 y H). lia.
+    + intros H _ E. specialize (h4 x H). lia.
+  - intros g c. rewrite u3, in_app_iff. intros [H|[H|[]]].
+    + destruct (h6 g c H) as (a & b & d).
+      assert (c <> t) by (intros ->; congruence).
+      rewrite u1, u2. destruct (Nat.eqb_spec c t); [contradiction|]. auto.
+    + inversion H; subst g c. rewrite u1, u2, Nat.eqb_refl. rewrite C0, Cp. repeat split; congruence.
+  - intros x. rewrite u1, u2. eqb_case x t; [intros _; congruence|apply h7].
+  - intros x o. rewrite u1, u2, u4. eqb_case x t; [cbn; discriminate|apply h8].
+  - intros x g. rewrite u1. eqb_case x t; [cbn; discriminate|].
+    intros H. destruct (h9 x g H) as (a & b & c & d).
+    assert (g <> t) by (intros ->; congruence).
+    rewrite u1, !u2, u3. destruct (Nat.eqb_spec g t); [contradiction|]. destruct (Nat.eqb_spec x t); [contradiction|].
+    split; [exact a|split; [|split; [exact c|exact d]]].
+    intros k. rewrite in_app_iff. intros [K|[K|[]]]; [eapply b; eauto|]. inversion K; congruence.
+  - intros a. rewrite u5. apply h10.
+Qed.
+
+Lemma Inv_call_fail s s' t cn :
+  Inv s -> inside (pcof s t) = false ->
+  (forall x, pcof s' x = if Nat.eqb x t then PDone else pcof s x) ->
+  (forall x, s_ctx s' x = if Nat.eqb x t then cn else s_ctx s x) ->
+  c_made cn = true -> c_tag0 cn = s_mtag s + 1 -> c_live cn = false ->
+  (forall k c, In (k, c) (s_map s') -> In (k, c) (s_map s)) -> s_mtag s' = s_mtag s + 1 ->
+  s_rlock s' = s_rlock s -> s_acc s' = s_acc s -> s_fix s' = s_fix s ->
+  Inv s'.
+Proof.
+  intros I Out u1 u2 Cm C0 Cl u3 u6 u4 u5 u7.
+  pose proof I as [h1 h2 h3 h4 h5 h6 h7 h8 h9 h10].
+  assert (Fo : is_follower (pcof s t) = false /\ reader_otag (pcof s t) = None /\ adopted_by (pcof s t) = None).
+  { unfold inside, is_reader in Out. destruct (pcof s t); cbn in *; try discriminate; auto. }
+  destruct Fo as (Fo1 & Fo2 & Fo3).
+  constructor.
+  - congruence.
+  - intros x. rewrite u1, u2. eqb_case x t; [rewrite Cl; reflexivity|apply h2].
+  - intros x. rewrite u1, u2. eqb_case x t; [cbn; discriminate|apply h3].
+  - intros x. rewrite u2, u6. eqb_case x t; [lia|]. intros H. specialize (h4 x H). lia.
+  - intros x y. rewrite !u2. eqb_case x t; eqb_case y t; auto.
+    + intros _ H E. specialize (h4 y H). lia.
+    + intros H _ E. specialize (h4 x H). lia.
+  - intros g c H. apply u3 in H. destruct (h6 g c H) as (a & b & d).
+    assert (c <> t) by (intros ->; congruence).
+    rewrite u1, u2. destruct (Nat.eqb_spec c t); [contradiction|]. auto.
+  - intros x. rewrite u1, u2. eqb_case x t; [cbn; discriminate|apply h7].
+  - intros x o. rewrite u1, u2, u4. eqb_case x t; [cbn; discriminate|apply h8].
+  - intros x g. rewrite u1. eqb_case x t; [cbn; discriminate|].
+    intros H. destruct (h9 x g H) as (a & b & c & d).
+    assert (g <> t) by (intros ->; congruence).
+    rewrite u1, !u2. destruct (Nat.eqb_spec g t); [contradiction|]. destruct (Nat.eqb_spec x t); [contradiction|].
+    split; [exact a|split; [|split; [exact c|exact d]]].
+    intros k K. apply u3 in K. eapply b; eauto.
+  - intros a. rewrite u5. apply h10.
+Qed.
+
+Lemma sv_do_send s3 t tag dl : same_view s3 (fst (do_send s3 t tag dl)).
+Proof.
+  unfold do_send.
+  destruct (dl <? s_now s3); [apply sv_set_errno|].
+  destruct (4294967295 <? k_req (nth t (s_calls s3) dummy_call)); [apply sv_set_errno|].
+  set (s3a := if s_shut s3 then set_errno s3 EPIPE else s3).
+  assert (A : same_view s3 s3a) by (unfold s3a; destruct (s_shut s3); [apply sv_set_errno|apply same_view_refl]).
+  match goal with |- context [add_trace s3a ?e] => set (s3b := add_trace s3a e) end.
+  assert (B : same_view s3 s3b) by (eapply same_view_trans; [exact A|apply sv_add_trace]).
+  match goal with |- context [if ?c then (s3b, 0) else _] => destruct c end; cbn [fst]; [exact B|].
+  eapply same_view_trans; [exact B|]. eapply same_view_trans; [apply sv_shutdown|apply sv_set_errno].
+Qed.
+
+(* ---- the micro steps ----------------------------------------------------------------------------------- *)
+Lemma Inv_outside_move s0 s s' t p :
+  Inv s0 -> same_view s0 s -> pc_upd s s' t p -> inside (pcof s0 t) = false -> inside p = false -> Inv s'.
+Proof.
+  intros I V U O Op. eapply Inv_pc_same_class; [eapply Inv_view; eauto|exact U|..];
+  rewrite (sv_pc _ _ V); unfold inside, is_reader in *;
+  destruct p; cbn in *; try discriminate; destruct (pcof s0 t); cbn in *; try discriminate; reflexivity.
+Qed.
+
+Lemma Inv_step_call s t : Inv s -> pcof s t = PCall -> Inv (step_call s t).
+Proof.
+  intros I P. pose proof I as [h1 h2 h3 h4 h5 h6 h7 h8 h9 h10].
+  assert (Out : inside (pcof s t) = false) by (rewrite P; reflexivity).
+  unfold step_call.
+  set (k := nth t (s_calls s) dummy_call). set (now := s_now s).
+  set (exp := if k_tmo k =? 0 then 0 else sat_add now (k_tmo k)).
+  destruct (exp <? now).
+  { unfold ret_nocall, park.
+    eapply Inv_outside_move with (s0 := s); [exact I| |apply pc_upd_sleep|exact Out|reflexivity].
+    eapply same_view_trans; [apply sv_set_errno|apply sv_add_trace]. }
+  set (rem := sat_sub exp now). set (dl := if rem =? 0 then 0 else sat_add now rem).
+  set (tag := s_mtag s + 1).
+  set (cn := mkCtx tag BEFORE_ISSUE 0 (Some t) dl true [] tag 0 true).
+  set (s2 := upd_ctx (set_mtag s tag) t cn).
+  assert (M2 : s_map s2 = s_map s) by reflexivity.
+  destruct (map_find tag (s_map s2)) as [c|] eqn:F.
+  { exfalso. rewrite M2 in F. apply map_find_In in F. destruct (h6 _ _ F) as (a & b & _).
+    destruct (h3 _ a) as (m & _). specialize (h4 _ m). unfold tag in b. lia. }
+  set (s3 := set_map s2 (s_map s2 ++ [(tag, t)])).
+  pose proof (sv_do_send s3 t tag dl) as V.
+  destruct (do_send s3 t tag dl) as [s4 r2]. cbn [fst] in V. destruct V as [v1 v2 v3 v4 v5 v6 v7 v8].
+  assert (C4 : forall x, s_ctx s4 x = if Nat.eqb x t then cn else s_ctx s x).
+  { intros x. rewrite v2. unfold s3, s2. cbn. unfold updn. reflexivity. }
+  assert (P4 : forall x, pcof s4 x = pcof s x) by (intros x; rewrite v1; reflexivity).
+  assert (M4 : s_map s4 = s_map s ++ [(tag, t)]) by (rewrite v3; reflexivity).
+  assert (T4 : s_mtag s4 = tag) by (rewrite v6; reflexivity).
+  assert (R4 : s_rlock s4 = s_rlock s) by (rewrite v4; reflexivity).
+  assert (A4 : s_acc s4 = s_acc s) by (rewrite v5; reflexivity).
+  assert (F4 : s_fix s4 = s_fix s) by (rewrite v7; reflexivity).
+  destruct (r2 <? 0).
+  { (* do_issue failed *)
+    destruct (ret_call_view (erase_tag s4 t tag None) t (-1) false false _ eq_refl) as (u1 & u2 & u3 & u4 & u5 & u6 & u7).
+    eapply Inv_call_fail with (t := t) (cn := cset_live cn false); [exact I|exact Out|..].
+    - intros x. rewrite u1. destruct (Nat.eqb x t); [reflexivity|]. change (pcof s4 x = pcof s x). apply P4.
+    - intros x. rewrite u2. change (s_ctx (erase_tag s4 t tag None)) with (s_ctx s4).
+      rewrite !C4, Nat.eqb_refl. destruct (Nat.eqb x t); reflexivity.
+    - reflexivity.
+    - reflexivity.
+    - reflexivity.
+    - intros g c. rewrite u3. change (s_map (erase_tag s4 t tag None)) with (map_erase tag (s_map s4)).
+      rewrite map_erase_In, M4, in_app_iff. intros [[H|[H|[]]] N]; [exact H|]. inversion H; congruence.
+    - rewrite u6. exact T4.
+    - rewrite u4. exact R4.
+    - rewrite u5. exact A4.
+    - rewrite u7. exact F4. }
+  set (s5 := upd_ctx s4 t (cset_phase (s_ctx s4 t) ISSUED)).
+  assert (C5 : s_ctx s5 t = cset_phase cn ISSUED).
+  { unfold s5. rewrite ctx_upd_ctx, Nat.eqb_refl, C4, Nat.eqb_refl. reflexivity. }
+  assert (M5 : s_map s5 = s_map s ++ [(tag, t)]) by exact M4.
+  rewrite C5. cbn [c_tag cset_phase c_phase cn].
+  destruct (map_find tag (s_map s5)) eqn:F5.
+  2:{ exfalso. rewrite M5 in F5. eapply map_find_app; eauto. }
+  eapply Inv_call_ok with (t := t) (dl := dl) (cn := cset_phase cn ISSUED); [exact I|exact Out|..].
+  - intros x. rewrite pcof_set_pc. destruct (Nat.eqb x t); [reflexivity|]. change (pcof s4 x = pcof s x). apply P4.
+  - intros x. change (s_ctx (set_pc s5 t (PWaitLoop dl)) x) with (s_ctx s5 x). unfold s5.
+    rewrite ctx_upd_ctx. rewrite !C4, Nat.eqb_refl. destruct (Nat.eqb x t); reflexivity.
+  - reflexivity.
+  - reflexivity.
+  - reflexivity.
+  - reflexivity.
+  - reflexivity.
+  - reflexivity.
+  - exact M5.
+  - exact T4.
+  - exact R4.
+  - exact A4.
+  - exact F4.
+Qed.
+
+Lemma phase_eqb_true a b : phase_eqb a b = true -> a = b.
+Proof. destruct a, b; cbn; congruence. Qed.
+
+Lemma reader_no_other_adopter s t o : Inv s -> reader_otag (pcof s t) = Some o ->
+  forall x, x <> t -> adopted_by (pcof s x) = None.
+Proof.
+  intros I R x N. destruct (adopted_by (pcof s x)) eqn:E; auto. exfalso. apply N.
+  eapply reader_unique; eauto. eapply adopted_is_reader; eauto. unfold is_reader. rewrite R. reflexivity.
+Qed.
+
+(* the reader returns (its own context is not in the map any more) *)
+Lemma Inv_reader_ret s t otag r :
+  Inv s -> reader_otag (pcof s t) = Some otag -> (forall k, ~ In (k, t) (s_map s)) ->
+  Inv (ret_call s t r true true).
+Proof.
+  intros I R M. apply Inv_ret; auto.
+  - unfold inside, is_reader. rewrite R. apply orb_true_r.
+  - intros u N. rewrite (reader_no_other_adopter s t otag I R u N). discriminate.
+  - unfold is_reader. rewrite R. reflexivity.
+Qed.
+
+Lemma Inv_hdr_fail s t otag : Inv s -> reader_otag (pcof s t) = Some otag -> Inv (hdr_fail s t otag).
+Proof.
+  intros I R. unfold hdr_fail. eapply Inv_reader_ret with (otag := otag).
+  - apply erase_keeps_Inv. exact I.
+  - exact R.
+  - intros k H. cbn in H. apply map_erase_In in H. destruct H as [H N].
+    destruct (i_map _ I _ _ H) as (_ & b & _). destruct (i_otag _ I _ _ R) as [E _]. congruence.
+Qed.
+
+Lemma Inv_set_own_tag s t otag g :
+  Inv s -> reader_otag (pcof s t) = Some otag -> adopted_by (pcof s t) = None ->
+  Inv (upd_ctx s t (cset_tag (s_ctx s t) g)).
+Proof.
+  intros I R A. apply Inv_ctx_upd; auto.
+  right. split.
+  - destruct (pcof s t); cbn in *; congruence.
+  - intros x. destruct (Nat.eq_dec x t) as [->|N]; [exact A|]. eapply reader_no_other_adopter; eauto.
+Qed.
+
+Lemma Inv_hdr_short s t otag ret :
+  Inv s -> reader_otag (pcof s t) = Some otag -> adopted_by (pcof s t) = None -> Inv (hdr_short s t otag ret).
+Proof.
+  intros I R A. unfold hdr_short.
+  match goal with |- context [set_stmo (add_trace s ?e) MAX64] => set (s1 := set_stmo (add_trace s e) MAX64) end.
+  assert (I1 : Inv s1).
+  { eapply Inv_view; [|exact I]. eapply same_view_trans; [apply sv_add_trace|apply sv_set_stmo]. }
+  assert (I2 : Inv (upd_ctx s1 t (cset_tag (s_ctx s1 t) (hdr_tag (s_hdr s1))))).
+  { eapply Inv_set_own_tag; eauto. }
+  apply Inv_hdr_fail.
+  - eapply Inv_view; [|exact I2]. eapply same_view_trans; [apply sv_shutdown|apply sv_set_errno].
+  - exact R.
+Qed.
+
+Lemma Inv_body_end s t otag targ size rd :
+  Inv s -> reader_otag (pcof s t) = Some otag -> inside (pcof s targ) = true ->
+  (forall k, ~ In (k, targ) (s_map s)) -> c_tag (s_ctx s t) = c_tag0 (s_ctx s targ) ->
+  Inv (body_end s t otag targ size rd).
+Proof.
+  intros I R Tin Tmap Ttag. unfold body_end.
+  match goal with |- context [set_stmo (add_trace s ?e) MAX64] => set (s1 := set_stmo (add_trace s e) MAX64) end.
+  assert (V1 : same_view s s1) by (eapply same_view_trans; [apply sv_add_trace|apply sv_set_stmo]).
+  set (p := if rd =? Z.of_nat size then (s1, rd) else (set_errno (stream_shutdown s1 t) ECONNRESET, -1)).
+  assert (V2 : same_view s (fst p)).
+  { unfold p. destruct (rd =? Z.of_nat size); cbn [fst]; [exact V1|].
+    eapply same_view_trans; [exact V1|]. eapply same_view_trans; [apply sv_shutdown|apply sv_set_errno]. }
+  destruct p as [s2 r]. cbn [fst] in V2.
+  assert (I2 : Inv s2) by (eapply Inv_view; eauto).
+  destruct V2 as [v1 v2 v3 v4 v5 v6 v7 v8].
+  assert (L2 : c_live (s_ctx s2 targ) = true) by (rewrite (i_live _ I2), v1; exact Tin).
+  set (s3 := add_acc s2 t targ AkRet).
+  assert (I3 : Inv s3) by (apply Inv_add_acc; auto).
+  set (s4 := upd_ctx s3 targ (cset_ret (s_ctx s3 targ) r)).
+  assert (I4 : Inv s4) by (apply Inv_ctx_upd; auto).
+  assert (C4 : forall x, s_ctx s4 x = if Nat.eqb x targ then cset_ret (s_ctx s targ) r else s_ctx s x).
+  { intros x. unfold s4. rewrite ctx_upd_ctx. change (s_ctx s3) with (s_ctx s2). rewrite !v2. reflexivity. }
+  assert (Th : c_th (s_ctx s4 targ) = Some targ).
+  { rewrite C4, Nat.eqb_refl. cbn. destruct (i_ctx _ I _ Tin) as (_ & b & _). exact b. }
+  rewrite Th.
+  set (s5 := add_acc s4 t targ AkPhase).
+  assert (L4 : c_live (s_ctx s4 targ) = true) by (rewrite C4, Nat.eqb_refl; cbn; rewrite <- v2; exact L2).
+  assert (I5 : Inv s5) by (apply Inv_add_acc; auto).
+  set (s6 := upd_ctx s5 targ (cset_phase (s_ctx s5 targ) COLLECTED)).
+  assert (P5 : forall x, pcof s5 x = pcof s x) by (intros x; rewrite <- v1; reflexivity).
+  assert (M5 : s_map s5 = s_map s) by (rewrite <- v3; reflexivity).
+  assert (C6t : c_tag (s_ctx s6 t) = c_tag (s_ctx s t)).
+  { unfold s6. rewrite ctx_upd_ctx. change (s_ctx s5) with (s_ctx s4). rewrite !C4, Nat.eqb_refl.
+    destruct (Nat.eqb t targ) eqn:Eb; [|reflexivity]. apply Nat.eqb_eq in Eb. subst. reflexivity. }
+  destruct (i_otag _ I _ _ R) as [Eo _].
+  destruct (i_ctx _ I _ Tin) as (Tm & _ & _).
+  assert (Rin : inside (pcof s t) = true) by (unfold inside, is_reader; rewrite R; apply orb_true_r).
+  destruct (i_ctx _ I _ Rin) as (Rm & _ & _).
+  rewrite C6t.
+  destruct (Z.eqb_spec otag (c_tag (s_ctx s t))) as [E|E].
+  - (* my own response *)
+    assert (targ = t).
+    { apply (i_inj _ I); auto. congruence. }
+    subst targ. rewrite Nat.eqb_refl.
+    eapply Inv_reader_ret with (otag := otag).
+    + unfold s6. apply Inv_ctx_upd; auto. right. split; [cbn; discriminate|]. intros _. split.
+      * intros k. rewrite M5. apply Tmap.
+      * intros x N. rewrite P5. rewrite (reader_no_other_adopter s t otag I R x N). discriminate.
+    + change (pcof s6 t) with (pcof s5 t). rewrite P5. exact R.
+    + intros k. change (s_map s6) with (s_map s5). rewrite M5. apply Tmap.
+  - assert (N : targ <> t) by (intros ->; congruence).
+    eapply Inv_collect_other with (s := s5) (t := t) (otag := otag) (targ := targ)
+                                  (c' := cset_phase (s_ctx s5 targ) COLLECTED); auto.
+    + rewrite P5. exact R.
+    + intros k. rewrite M5. apply Tmap.
+    + intros x. rewrite pcof_set_pc. destruct (Nat.eqb x t); [reflexivity|].
+      rewrite (sv_pc _ _ (sv_interrupt s6 targ EINTR)). reflexivity.
+    + intros x. change (s_ctx (set_pc (interrupt s6 targ EINTR) t (PReaderLoop otag)) x) with (s_ctx (interrupt s6 targ EINTR) x).
+      rewrite (sv_ctx _ _ (sv_interrupt s6 targ EINTR)). unfold s6. rewrite ctx_upd_ctx. reflexivity.
+    + change (s_map (set_pc (interrupt s6 targ EINTR) t (PReaderLoop otag))) with (s_map (interrupt s6 targ EINTR)).
+      rewrite (sv_map _ _ (sv_interrupt s6 targ EINTR)). reflexivity.
+    + change (s_rlock (set_pc (interrupt s6 targ EINTR) t (PReaderLoop otag))) with (s_rlock (interrupt s6 targ EINTR)).
+      rewrite (sv_rlock _ _ (sv_interrupt s6 targ EINTR)). reflexivity.
+    + change (s_acc (set_pc (interrupt s6 targ EINTR) t (PReaderLoop otag))) with (s_acc (interrupt s6 targ EINTR)).
+      rewrite (sv_acc _ _ (sv_interrupt s6 targ EINTR)). reflexivity.
+    + change (s_mtag (set_pc (interrupt s6 targ EINTR) t (PReaderLoop otag))) with (s_mtag (interrupt s6 targ EINTR)).
+      rewrite (sv_mtag _ _ (sv_interrupt s6 targ EINTR)). reflexivity.
+    + change (s_fix (set_pc (interrupt s6 targ EINTR) t (PReaderLoop otag))) with (s_fix (interrupt s6 targ EINTR)).
+      rewrite (sv_fix _ _ (sv_interrupt s6 targ EINTR)). reflexivity.
+Qed.
+
+Lemma Inv_hdr_complete s t otag :
+  Inv s -> reader_otag (pcof s t) = Some otag -> adopted_by (pcof s t) = None -> Inv (hdr_complete s t otag).
+Proof.
+  intros I R A. unfold hdr_complete.
+  match goal with |- context [set_stmo (add_trace s ?e) MAX64] => set (s1 := set_stmo (add_trace s e) MAX64) end.
+  assert (V1 : same_view s s1) by (eapply same_view_trans; [apply sv_add_trace|apply sv_set_stmo]).
+  assert (I1 : Inv s1) by (eapply Inv_view; eauto).
+  assert (R1 : reader_otag (pcof s1 t) = Some otag) by (rewrite (sv_pc _ _ V1); exact R).
+  assert (A1 : adopted_by (pcof s1 t) = None) by (rewrite (sv_pc _ _ V1); exact A).
+  set (g := hdr_tag (s_hdr s1)).
+  set (s2 := upd_ctx s1 t (cset_tag (s_ctx s1 t) g)).
+  assert (I2 : Inv s2) by (eapply Inv_set_own_tag; eauto).
+  assert (R2 : reader_otag (pcof s2 t) = Some otag) by exact R1.
+  assert (A2 : adopted_by (pcof s2 t) = None) by exact A1.
+  destruct (negb ((hdr_magic (s_hdr s1) =? MAGIC) && (hdr_version (s_hdr s1) =? VERSION))).
+  { apply Inv_hdr_fail; [|exact R2].
+    eapply Inv_view; [|exact I2]. eapply same_view_trans; [apply sv_shutdown|apply sv_set_errno]. }
+  destruct (map_find g (s_map s2)) as [targ|] eqn:F.
+  2:{ (* unknown tag *)
+      eapply Inv_reader_ret with (otag := otag).
+      - eapply Inv_view; [apply sv_set_errno|]. apply erase_keeps_Inv. exact I2.
+      - exact R2.
+      - intros k H. cbn in H. apply map_erase_In in H. destruct H as [H N].
+        destruct (i_map _ I2 _ _ H) as (_ & b & _). destruct (i_otag _ I2 _ _ R2) as [E _]. congruence. }
+  apply map_find_In in F.
+  destruct (i_map _ I2 _ _ F) as (Tin & Tt0 & Tph).
+  set (s3 := erase_tag s2 t g (Some targ)).
+  assert (I3 : Inv s3) by (apply erase_keeps_Inv; exact I2).
+  assert (L3 : c_live (s_ctx s3 targ) = true) by (change (s_ctx s3) with (s_ctx s2); rewrite (i_live _ I2); exact Tin).
+  set (s4 := add_acc s3 t targ AkAdopt).
+  assert (I4 : Inv s4) by (apply Inv_add_acc; auto).
+  set (s5 := upd_ctx s4 targ (cset_hoff (cset_buf (s_ctx s4 targ) []) (length (s_consumed s4)))).
+  assert (I5 : Inv s5) by (apply Inv_ctx_upd; auto).
+  match goal with |- context [set_stmo s5 ?v] => set (s6 := set_stmo s5 v) end.
+  assert (I6 : Inv s6) by (eapply Inv_view; [apply sv_set_stmo|exact I5]).
+  assert (P6 : forall x, pcof s6 x = pcof s2 x) by reflexivity.
+  assert (M6 : forall k, ~ In (k, targ) (s_map s6)).
+  { intros k H. change (s_map s6) with (map_erase g (s_map s2)) in H. apply map_erase_In in H. destruct H as [H N].
+    destruct (i_map _ I2 _ _ H) as (_ & b & _). congruence. }
+  assert (C6 : forall x, s_ctx s6 x = if Nat.eqb x targ then cset_hoff (cset_buf (s_ctx s2 targ) []) (length (s_consumed s4)) else s_ctx s2 x).
+  { intros x. change (s_ctx s6 x) with (s_ctx s5 x). unfold s5. rewrite ctx_upd_ctx. reflexivity. }
+  assert (T6 : c_tag (s_ctx s6 t) = c_tag0 (s_ctx s6 targ)).
+  { assert (X : c_tag (s_ctx s2 t) = g) by (unfold s2; rewrite ctx_upd_ctx, Nat.eqb_refl; reflexivity).
+    rewrite !C6, Nat.eqb_refl.
+    destruct (Nat.eqb t targ) eqn:Eb.
+    - apply Nat.eqb_eq in Eb. subst targ. change (c_tag (s_ctx s2 t) = c_tag0 (s_ctx s2 t)). congruence.
+    - change (c_tag (s_ctx s2 t) = c_tag0 (s_ctx s2 targ)). congruence. }
+  assert (Ph6 : c_phase (s_ctx s6 targ) <> COLLECTED) by (rewrite C6, Nat.eqb_refl; exact Tph).
+  assert (In6 : inside (pcof s6 targ) = true) by (rewrite P6; exact Tin).
+  destruct (Z.to_nat (hdr_size (s_hdr s1))) as [|n] eqn:Sz.
+  { apply Inv_body_end; auto. }
+  destruct (s_shut s6).
+  { apply Inv_body_end; auto. }
+  refine (Inv_start_body s6 _ t otag targ _ I6 (pc_upd_set_pc _ _ _) _ _ _ In6 M6 T6 Ph6).
+  - rewrite P6. exact R2.
+  - reflexivity.
+  - reflexivity.
+Qed.
+
+Lemma Inv_step_hdrread s t otag got dl :
+  Inv s -> pcof s t = PHdrRead otag got dl -> Inv (step_hdrread s t otag got dl).
+Proof.
+  intros I P. unfold step_hdrread.
+  destruct (stake (s_now s) (HDRLEN - got) (s_script s)) as [g sc'].
+  set (s1 := set_consumed (set_script (set_hdr s (overwrite (s_hdr s) got g)) sc') (s_consumed s ++ g)).
+  assert (V1 : same_view s s1).
+  { eapply same_view_trans; [apply sv_set_hdr|]. eapply same_view_trans; [apply sv_set_script|apply sv_set_consumed]. }
+  assert (I1 : Inv s1) by (eapply Inv_view; eauto).
+  assert (R1 : reader_otag (pcof s1 t) = Some otag) by (rewrite (sv_pc _ _ V1), P; reflexivity).
+  assert (A1 : adopted_by (pcof s1 t) = None) by (rewrite (sv_pc _ _ V1), P; reflexivity).
+  destruct (read_status (s_now s) dl (HDRLEN - (got + length g)) sc').
+  - apply Inv_hdr_complete; auto.
+  - apply Inv_hdr_short; auto.
+  - apply Inv_hdr_short; auto.
+    + eapply Inv_view; [apply sv_set_errno|exact I1].
+  - eapply Inv_pc_same_class; [exact I1|apply pc_upd_sleep|..]; rewrite (sv_pc _ _ V1), P; reflexivity.
+Qed.
+
+Lemma Inv_step_bodyread s t otag targ size need dl :
+  Inv s -> pcof s t = PBodyRead otag targ size need dl -> Inv (step_bodyread s t otag targ size need dl).
+Proof.
+  intros I P. unfold step_bodyread.
+  assert (Ad : adopted_by (pcof s t) = Some targ) by (rewrite P; reflexivity).
+  assert (R : reader_otag (pcof s t) = Some otag) by (rewrite P; reflexivity).
+  destruct (i_adopt _ I _ _ Ad) as (Tin & Tmap & Ttag & _).
+  destruct (stake (s_now s) need (s_script s)) as [g sc'].
+  set (s1 := set_consumed (set_script s sc') (s_consumed s ++ g)).
+  assert (V1 : same_view s s1) by (eapply same_view_trans; [apply sv_set_script|apply sv_set_consumed]).
+  assert (I1 : Inv s1) by (eapply Inv_view; eauto).
+  match goal with |- context [match g with [] => s1 | _ :: _ => ?e end] => set (s2 := match g with [] => s1 | _ :: _ => e end) end.
+  assert (H2 : Inv s2 /\ (forall x, pcof s2 x = pcof s x) /\ s_map s2 = s_map s /\
+               c_tag (s_ctx s2 t) = c_tag (s_ctx s t) /\ c_tag0 (s_ctx s2 targ) = c_tag0 (s_ctx s targ)).
+  { unfold s2. destruct g as [|b g'].
+    - split; [exact I1|]. split; [reflexivity|]. split; [reflexivity|]. split; reflexivity.
+    - split.
+      + apply Inv_ctx_upd; auto.
+        eapply Inv_view; [apply sv_add_trace|]. apply Inv_add_acc; auto.
+        change (s_ctx s1) with (s_ctx s). rewrite (i_live _ I). exact Tin.
+      + split; [reflexivity|]. split; [reflexivity|]. split.
+        * rewrite ctx_upd_ctx. destruct (Nat.eqb t targ) eqn:Eb; [|reflexivity].
+          apply Nat.eqb_eq in Eb. subst. reflexivity.
+        * rewrite ctx_upd_ctx, Nat.eqb_refl. reflexivity. }
+  destruct H2 as (I2 & P2 & M2 & T2 & T02).
+  assert (R2 : reader_otag (pcof s2 t) = Some otag) by (rewrite P2; exact R).
+  assert (In2 : inside (pcof s2 targ) = true) by (rewrite P2; exact Tin).
+  assert (Mp2 : forall k, ~ In (k, targ) (s_map s2)) by (intros k; rewrite M2; apply Tmap).
+  assert (Tg2 : c_tag (s_ctx s2 t) = c_tag0 (s_ctx s2 targ)) by congruence.
+  destruct (read_status (s_now s) dl (need - length g) sc').
+  - apply Inv_body_end; auto.
+  - apply Inv_body_end; auto.
+  - apply Inv_body_end; auto.
+    eapply Inv_view; [apply sv_set_errno|exact I2].
+  - eapply Inv_pc_same_class; [exact I2|apply pc_upd_sleep|..]; rewrite P2, P; reflexivity.
+Qed.
+
+Lemma Inv_step_readerloop s t otag :
+  Inv s -> pcof s t = PReaderLoop otag -> Inv (step_readerloop s t otag).
+Proof.
+  intros I P. unfold step_readerloop.
+  set (s1 := set_hdr s (repeat 0 8 ++ skipn 8 (s_hdr s))).
+  assert (I1 : Inv s1) by (eapply Inv_view; [apply sv_set_hdr|exact I]).
+  assert (R1 : reader_otag (pcof s1 t) = Some otag) by (change (pcof s1 t) with (pcof s t); rewrite P; reflexivity).
+  assert (A1 : adopted_by (pcof s1 t) = None) by (change (pcof s1 t) with (pcof s t); rewrite P; reflexivity).
+  destruct (c_dl (s_ctx s t) <? s_now s).
+  { apply Inv_hdr_fail; auto. eapply Inv_view; [apply sv_set_errno|exact I1]. }
+  match goal with |- context [set_stmo s1 ?v] => set (s2 := set_stmo s1 v) end.
+  assert (I2 : Inv s2) by (eapply Inv_view; [apply sv_set_stmo|exact I1]).
+  destruct (s_shut s2).
+  { apply Inv_hdr_short; auto. }
+  eapply Inv_pc_same_class; [exact I2|apply pc_upd_set_pc|..]; change (pcof s2 t) with (pcof s t); rewrite P; reflexivity.
+Qed.
+
+Lemma follower_not_in_map_if_collected s t :
+  Inv s -> c_phase (s_ctx s t) = COLLECTED ->
+  (forall k, ~ In (k, t) (s_map s)) /\ (forall u, u <> t -> adopted_by (pcof s u) <> Some t).
+Proof.
+  intros I Ph. split.
+  - intros k H. destruct (i_map _ I _ _ H) as (_ & _ & c). contradiction.
+  - intros u N H. destruct (i_adopt _ I _ _ H) as (_ & _ & _ & d). destruct (d (not_eq_sym N)) as [_ d2]. contradiction.
+Qed.
+
+Lemma Inv_step_waitloop s t tmo :
+  Inv s -> pcof s t = PWaitLoop tmo -> Inv (step_waitloop s t tmo).
+Proof.
+  intros I P. unfold step_waitloop.
+  assert (Tin : inside (pcof s t) = true) by (rewrite P; reflexivity).
+  assert (Fo : is_follower (pcof s t) = true) by (rewrite P; reflexivity).
+  destruct (i_ctx _ I _ Tin) as (Tm & Th & Tp).
+  assert (Park : forall s1, Inv s1 -> (forall x, pcof s1 x = pcof s x) -> s_rlock s1 = s_rlock s ->
+                 Inv (match s_rlock s1 with
+                      | None => set_pc (set_rlock s1 (Some t)) t (PReaderLoop (c_tag (s_ctx s1 t)))
+                      | Some _ => sleep (set_waitq s1 (s_waitq s1 ++ [t])) t tmo (PParked tmo)
+                      end)).
+  { intros s1 I1 P1 R1. destruct (s_rlock s1) eqn:RL.
+    - eapply Inv_pc_same_class; [eapply Inv_view; [apply sv_set_waitq|exact I1]|apply pc_upd_sleep|..];
+        change (pcof (set_waitq s1 (s_waitq s1 ++ [t])) t) with (pcof s1 t); rewrite P1, P; reflexivity.
+    - apply Inv_become_reader; auto. rewrite P1. exact Fo. }
+  destruct (c_phase (s_ctx s t)) eqn:Ph.
+  - contradiction.
+  - apply Park.
+    + apply Inv_ctx_upd; auto.
+      right. split; [cbn; discriminate|]. cbn. discriminate.
+    + reflexivity.
+    + reflexivity.
+  - apply Park; auto.
+  - rewrite Th, Nat.eqb_refl.
+    destruct (follower_not_in_map_if_collected s t I Ph) as [A B].
+    apply Inv_ret; auto. rewrite P. reflexivity.
+Qed.
+
+Lemma Inv_step_parked s t tmo :
+  Inv s -> pcof s t = PParked tmo -> Inv (step_parked s t tmo).
+Proof.
+  intros I P. unfold step_parked.
+  pose proof (sv_cvwait_ret s t) as V. destruct (cvwait_ret s t) as [s1 r]. cbn [fst] in V.
+  assert (I1 : Inv s1) by (eapply Inv_view; eauto).
+  assert (P1 : pcof s1 t = PParked tmo) by (rewrite (sv_pc _ _ V); exact P).
+  assert (Tin : inside (pcof s1 t) = true) by (rewrite P1; reflexivity).
+  assert (Fo : is_follower (pcof s1 t) = true) by (rewrite P1; reflexivity).
+  destruct (i_ctx _ I1 _ Tin) as (Tm & Th & Tp).
+  rewrite Th, Nat.eqb_refl, andb_true_r.
+  destruct (phase_eqb (c_phase (s_ctx s1 t)) COLLECTED) eqn:Pe.
+  { apply phase_eqb_true in Pe. destruct (follower_not_in_map_if_collected s1 t I1 Pe) as [A B].
+    apply Inv_ret; auto. rewrite P1. reflexivity. }
+  destruct (r =? -1).
+  2:{ eapply Inv_pc_same_class; [exact I1|apply pc_upd_set_pc|..]; rewrite P1; reflexivity. }
+  rewrite (i_fix _ I). cbn [andb].
+  set (s2 := erase_tag s1 t (c_tag (s_ctx s1 t)) None).
+  assert (I2 : Inv s2) by (apply erase_keeps_Inv; exact I1).
+  destruct (map_mem (c_tag (s_ctx s1 t)) (s_map s1)) eqn:Er; cbn [negb].
+  - (* really timed out: the tag was still registered, so nobody has adopted the context *)
+    unfold map_mem in Er. destruct (map_find (c_tag (s_ctx s1 t)) (s_map s1)) as [c'|] eqn:F; [|discriminate].
+    apply map_find_In in F. destruct (i_map _ I1 _ _ F) as (Cin & Ct0 & _).
+    destruct (i_ctx _ I1 _ Cin) as (Cm & _ & _).
+    assert (c' = t).
+    { apply (i_inj _ I1); auto. rewrite Ct0. apply (i_ftag _ I1). exact Fo. }
+    subst c'.
+    apply Inv_ret.
+    + eapply Inv_view; [apply sv_set_errno|exact I2].
+    + exact Tin.
+    + intros k H. cbn in H. apply map_erase_In in H. destruct H as [H N].
+      destruct (i_map _ I1 _ _ H) as (_ & b & _). apply N. rewrite <- b. symmetry. apply (i_ftag _ I1). exact Fo.
+    + intros u N H. change (pcof (set_errno s2 ETIMEDOUT) u) with (pcof s1 u) in H.
+      destruct (i_adopt _ I1 _ _ H) as (_ & b & _). eapply b; eauto.
+    + change (pcof (set_errno s2 ETIMEDOUT) t) with (pcof s1 t). rewrite P1. reflexivity.
+  - (* the fix: the reader has adopted the context — keep waiting *)
+    eapply Inv_pc_same_class; [exact I2|apply pc_upd_set_pc|..]; change (pcof s2 t) with (pcof s1 t); rewrite P1; reflexivity.
+Qed.
+
+(* ---- the transition system ---------------------------------------------------------------------------- *)
+Lemma Inv_micro s t : Inv s -> Inv (micro s t).
+Proof.
+  intros I. unfold micro.
+  destruct (t_pc (s_thr s t)) eqn:E; change (t_pc (s_thr s t)) with (pcof s t) in E.
+  - destruct (0 <? k_start (nth t (s_calls s) dummy_call)).
+    + eapply Inv_outside_move with (s0 := s); [exact I|apply same_view_refl|apply pc_upd_sleep|rewrite E; reflexivity|reflexivity].
+    + eapply Inv_outside_move with (s0 := s); [exact I|apply same_view_refl|apply pc_upd_set_pc|rewrite E; reflexivity|reflexivity].
+  - eapply Inv_outside_move with (s0 := s); [exact I|apply sv_usleep_ret|apply pc_upd_set_pc|rewrite E; reflexivity|reflexivity].
+  - apply Inv_step_call; auto.
+  - apply Inv_step_waitloop; auto.
+  - apply Inv_step_parked; auto.
+  - apply Inv_step_readerloop; auto.
+  - apply Inv_step_hdrread; auto.
+  - eapply Inv_pc_same_class; [eapply Inv_view; [apply sv_usleep_ret|exact I]|apply pc_upd_set_pc|..];
+      rewrite (sv_pc _ _ (sv_usleep_ret s t)), E; reflexivity.
+  - apply Inv_step_bodyread; auto.
+  - eapply Inv_pc_same_class; [eapply Inv_view; [apply sv_usleep_ret|exact I]|apply pc_upd_set_pc|..];
+      rewrite (sv_pc _ _ (sv_usleep_ret s t)), E; reflexivity.
+  - unfold park. eapply Inv_outside_move with (s0 := s); [exact I|apply sv_usleep_ret|apply pc_upd_sleep|rewrite E; reflexivity|reflexivity].
+Qed.
+
+Lemma Inv_step s e s' : Inv s -> step s e = Some s' -> Inv s'.
+Proof.
+  intros I. destruct e as [t|t|d|]; cbn.
+  - destruct (Nat.ltb t (nthreads s)); [|discriminate]. destruct (t_stat (s_thr s t)); [|discriminate].
+    intros H; inversion H; subst. apply Inv_micro; auto.
+  - destruct (Nat.ltb t (nthreads s)); [|discriminate]. destruct (t_stat (s_thr s t)); [discriminate|].
+    destruct (dl <=? s_now s); [|discriminate]. intros H; inversion H; subst.
+    eapply Inv_view; [|exact I]. constructor; try reflexivity.
+    intros x. unfold pcof. cbn. unfold updn. destruct (Nat.eqb_spec x t); subst; reflexivity.
+  - destruct (0 <=? d); [|discriminate]. intros H; inversion H; subst.
+    eapply Inv_view; [apply sv_set_now|exact I].
+  - intros H; inversion H; subst. eapply Inv_view; [|exact I]. constructor; reflexivity.
+Qed.
+
+Lemma Inv_init calls script : Inv (init true calls script).
+Proof.
+  constructor; cbn; try reflexivity; try discriminate; try contradiction; auto.
+  - intros t H. discriminate.
+  - intros t H. discriminate.
+  - intros t u H. discriminate.
+Qed.
+
+Lemma Inv_run s es s' : Inv s -> run_events s es = Some s' -> Inv s'.
+Proof.
+  revert s. induction es as [|e r IH]; cbn; intros s I H.
+  - inversion H; subst; auto.
+  - destruct (step s e) eqn:E; [|discriminate]. eapply IH; [|exact H]. eapply Inv_step; eauto.
+Qed.
+
+(* the property, for the code with the fix: whatever the program, the peer's script and the schedule,
+   every access to a context (or its buffers) by a thread other than its owner names a LIVE context *)
+Lemma no_access_after_return_all :
+  forall calls script es s,
+    run_events (init true calls script) es = Some s ->
+    forall a, In a (s_acc s) -> a_live a = true.
+Proof.
+  intros calls script es s H. apply (i_acc s). eapply Inv_run; [apply Inv_init|exact H].
+Qed.
+
+(* ... and every context still registered in the map, or being collected by the reader, is live *)
+Lemma registered_contexts_live :
+  forall calls script es s,
+    run_events (init true calls script) es = Some s ->
+    (forall g c, In (g, c) (s_map s) -> c_live (s_ctx s c) = true) /\
+    (forall t g, adopted_by (pcof s t) = Some g -> c_live (s_ctx s g) = true).
+Proof.
+  intros calls script es s H.
+  assert (I : Inv s) by (eapply Inv_run; [apply Inv_init|exact H]).
+  split.
+  - intros g c K. rewrite (i_live _ I). apply (i_map _ I _ _ K).
+  - intros t g K. rewrite (i_live _ I). apply (i_adopt _ I _ _ K).
+Qed.
+
+(* ---- the cooperative run only takes steps of the transition system -------------------------------------- *)
+Definition d_ok (s0 : state) (d : dstate) : Prop := run_events s0 (rev (d_evs d)) = Some (d_st d).
+
+Lemma run_events_app s es1 es2 :
+  run_events s (es1 ++ es2) = match run_events s es1 with Some s1 => run_events s1 es2 | None => None end.
+Proof.
+  revert s. induction es1 as [|e r IH]; cbn; intros s; [reflexivity|].
+  destruct (step s e); [apply IH|reflexivity].
+Qed.
+
+Lemma d_ok_apply s0 d e : d_ok s0 d -> d_ok s0 (d_apply d e).
+Proof.
+  unfold d_ok, d_apply. intros H. destruct (step (d_st d) e) eqn:E; cbn; [|exact H].
+  rewrite run_events_app, H. cbn. rewrite E. reflexivity.
+Qed.
+
+Lemma d_ok_wake_list s0 l : forall d, d_ok s0 d -> d_ok s0 (d_wake_list d l).
+Proof. induction l as [|w r IH]; cbn; intros d H; [exact H|]. apply IH. exact H. Qed.
+
+Lemma d_ok_run_thread s0 fuel t : forall d, d_ok s0 d -> d_ok s0 (d_run_thread fuel d t).
+Proof.
+  induction fuel as [|f IH]; cbn; intros d H; [exact H|].
+  destruct (t_stat (s_thr (d_st d) t)).
+  - apply IH. apply d_ok_apply. exact H.
+  - pose proof (d_ok_wake_list s0 (s_woken (d_st d)) _ (d_ok_apply s0 d EvAck H)) as K. exact K.
+Qed.
+
+Lemma d_ok_resume s0 fuel : forall d, d_ok s0 d -> d_ok s0 (d_resume fuel d).
+Proof.
+  induction fuel as [|f IH]; cbn; intros d H; [exact H|].
+  destruct (front (d_heap d)) as [[|t]|]; try exact H.
+  destruct (d_ts d (S t) <=? s_now (d_st d)); [|exact H].
+  apply IH. apply d_ok_apply. exact H.
+Qed.
+
+Lemma d_ok_drive s0 tfuel fuel : forall d, d_ok s0 d -> d_ok s0 (drive tfuel fuel d).
+Proof.
+  induction fuel as [|f IH]; cbn; intros d H; [exact H|].
+  destruct (d_ring d) as [|[|t] rest]; [exact H| |].
+  - pose proof (d_ok_resume s0 (S (length (hq (d_heap d)))) d H) as K.
+    set (d1 := d_resume (S (length (hq (d_heap d)))) d) in *.
+    destruct (d_ring d1) as [|[|t1] [|r2 rest2]]; try exact K.
+    + destruct (front (d_heap d1)); [|exact K]. destruct (d_ts d1 t =? MAX64); [exact K|].
+      apply IH. apply d_ok_apply. exact K.
+    + apply IH. exact K.
+    + destruct (front (d_heap d1)); [|exact K]. destruct (d_ts d1 t =? MAX64); [exact K|].
+      apply IH. apply d_ok_apply. exact K.
+    + destruct (front (d_heap d1)); [|exact K]. destruct (d_ts d1 t =? MAX64); [exact K|].
+      apply IH. apply d_ok_apply. exact K.
+  - apply IH. apply d_ok_run_thread. exact H.
+Qed.
+
+Lemma drive_reachable fix_ calls script tfuel fuel :
+  let d := run_case fix_ calls script tfuel fuel in
+  run_events (init fix_ calls script) (rev (d_evs d)) = Some (d_st d).
+Proof.
+  cbv zeta. unfold run_case. apply d_ok_drive. unfold d_ok, d_init. cbn. reflexivity.
+Qed.
+
+(* hence the run that is compared with the real stub satisfies the property too *)
+Lemma coop_no_access_after_return calls script tfuel fuel :
+  forall a, In a (s_acc (d_st (run_case true calls script tfuel fuel))) -> a_live a = true.
+Proof.
+  eapply no_access_after_return_all. apply drive_reachable.
 Qed.
